@@ -150,6 +150,9 @@ func isNameChar(c byte) bool {
 	return c == '_' || (c >= '0' && c <= '9') || (c >= 'a' && c <= 'z') || (c >= 'A' && c <= 'Z')
 }
 
+// multi-byte characters are literal text like any other, at the top level and inside defaults
+var c07Wide = []string{"é", "ß", "€", "世", "🙂", "\u00a0"}
+
 func genLit(t *rapid.T, nested bool) string {
 	alpha := c07TopAlphabet
 	if nested {
@@ -158,7 +161,12 @@ func genLit(t *rapid.T, nested bool) string {
 	n := rapid.IntRange(1, 4).Draw(t, "litlen")
 	var b strings.Builder
 	for i := 0; i < n; i++ {
-		b.WriteByte(alpha[rapid.IntRange(0, len(alpha)-1).Draw(t, "c")])
+		k := rapid.IntRange(0, len(alpha)+1).Draw(t, "c")
+		if k >= len(alpha) {
+			b.WriteString(rapid.SampledFrom(c07Wide).Draw(t, "wide"))
+			continue
+		}
+		b.WriteByte(alpha[k])
 	}
 	return b.String()
 }
@@ -201,7 +209,7 @@ func genT(t *rapid.T, depth int, nested bool) []tNode {
 	return out
 }
 
-var c07Values = []string{"", "v", "val ue", "$A", "${B}", "$$", "${A:-x}", "}", "a}b{", ":-", "1"}
+var c07Values = []string{"", "v", "val ue", "$A", "${B}", "$$", "${A:-x}", "}", "a}b{", ":-", "1", "é€", "世}"}
 
 func genVars(t *rapid.T) map[string]string {
 	m := map[string]string{"EMPTY": ""}
